@@ -367,8 +367,9 @@ func liveForWrite(wr FrameWriteRequest) bool {
 //@   noframe
 
 // wroteFrame: closeStream is called exactly when the written frame ends the stream: END_STREAM on
-// a stream whose remote side is already closed, RST_STREAM (a StreamError whose stream is still
-// registered, or a handler-panic reset). END_STREAM on an open stream moves it to half-closed
+// a stream whose remote side is already closed, RST_STREAM (a StreamError or a handler-panic reset
+// whose stream is still registered; finding F18: the original code closed the stream of a
+// handler-panic reset without that check and panicked when the peer had reset it meanwhile). END_STREAM on an open stream moves it to half-closed
 // (local) and queues exactly one RST_STREAM(NO_ERROR) for it (the stream is closed when that one
 // has been written). Afterwards the writer is answered and the scheduler is run once.
 //
@@ -383,9 +384,10 @@ func liveForWrite(wr FrameWriteRequest) bool {
 //@   ghost resets += 1 at call resetStream
 //@   ghost scheds += 1 at call scheduleFrameWrite
 //@   assert at call closeStream: !sc.writingFrame && !sc.writingFrameAsync
-//@   assert at call closeStream: (old(endsStreamWrite(res.wr.write)) && $st == res.wr.stream && old(res.wr.stream.state) == stateHalfClosedRemote) || (hastype(res.wr.write, StreamError) && $st == old(sc.streams[res.wr.write.(StreamError).StreamID]) && $st != nil) || (hastype(res.wr.write, handlerPanicRST) && $st == res.wr.stream)
+//@   assert at call closeStream: $st != nil && $st.state != stateClosed && $st.state != stateIdle
+//@   assert at call closeStream: (old(endsStreamWrite(res.wr.write)) && $st == res.wr.stream && old(res.wr.stream.state) == stateHalfClosedRemote) || (hastype(res.wr.write, StreamError) && $st == old(sc.streams[res.wr.write.(StreamError).StreamID]) && $st != nil) || (hastype(res.wr.write, handlerPanicRST) && $st == old(sc.streams[res.wr.write.(handlerPanicRST).StreamID]) && $st != nil)
 //@   assert at call resetStream: old(endsStreamWrite(res.wr.write)) && old(res.wr.stream.state) == stateOpen && res.wr.stream.state == stateHalfClosedLocal && $se.StreamID == res.wr.stream.id && $se.Code == ErrCodeNo
 //@   ensures  ghost(scheds) == 1
 //@   ensures  ghost(resets) == ite(old(endsStreamWrite(res.wr.write)) && old(res.wr.stream.state) == stateOpen, 1, 0)
-//@   ensures  ghost(closes) == ite((old(endsStreamWrite(res.wr.write)) && old(res.wr.stream.state) == stateHalfClosedRemote) || (hastype(res.wr.write, StreamError) && old(sc.streams[res.wr.write.(StreamError).StreamID]) != nil) || hastype(res.wr.write, handlerPanicRST), 1, 0)
+//@   ensures  ghost(closes) == ite((old(endsStreamWrite(res.wr.write)) && old(res.wr.stream.state) == stateHalfClosedRemote) || (hastype(res.wr.write, StreamError) && old(sc.streams[res.wr.write.(StreamError).StreamID]) != nil) || (hastype(res.wr.write, handlerPanicRST) && old(sc.streams[res.wr.write.(handlerPanicRST).StreamID]) != nil), 1, 0)
 //@   noframe
